@@ -71,6 +71,8 @@ def replay_all(ctx, pid, prefix, sims, seed):
     from harness.drivers import channel
     total = 0
     for name, consts, num, depth, scale in sims:
+        text = scale == 'text'      # text-mode readers: 1 unit = 1 character = 2 bytes
+        scale = 2 if text else scale
         d = dict(BASE)
         d.update(consts)
         chans = parse_set(d['Chans'])
@@ -80,7 +82,7 @@ def replay_all(ctx, pid, prefix, sims, seed):
             if len(steps) < 2:
                 continue
             r = channel.replay(steps, chans, d['InitWin'], d['PktSize'],
-                               scale, d['High'], d['Low'])
+                               scale, d['High'], d['Low'], text=text)
             total += 1
             key = (name, tuple(map(str, r['script'])))
             ctx.count(key, nontrivial=len(r['script']) > 3)
